@@ -65,6 +65,7 @@ theorem isAlign_stepOp (b : Bag) (op : Op) (hne : op ≠ .unalign) : (stepOp b o
   cases op with
   | unalign => exact absurd rfl hne
   | renameRe ok names => simp only [stepOp]; split <;> rfl
+  | setAlpha a => exact (setAlphabet_fields a b).2.2.2.1
   | add n s => exact isAlign_addSeqAs _ b n s
   | ignore p => rfl
   | clear => rfl
